@@ -33,6 +33,7 @@ type Keys struct {
 	reading   bool        // Currently reading keys out of the main loop.
 	keysOnce  chan []byte // Passing keys from the main routine.
 	cursor    chan []byte // Cursor coordinates has been read on stdin.
+	cursorReq int32       // Number of pending cursor position requests.
 	resize    chan bool   // Resize events on Windows are sent on stdin. USED IN WINDOWS
 	readErr   error       // The error returned by the last read on standard input, if any.
 
